@@ -154,7 +154,7 @@ def gen_case(rng, max_len):
                 continue
         if style == "plausible" and rng.random() < 0.25:
             # a typical client move: track change or buffering run
-            move = rng.choice(["change", "bufrun", "stop"])
+            move = rng.choice(["change", "bufrun", "stop", "gapless"])
             if move == "change":
                 out += [("prep", True), ("uri", rng.randrange(N_URIS), False, False)]
                 if rng.random() < 0.7:
@@ -163,6 +163,12 @@ def gen_case(rng, max_len):
                 sim.cur = "READY" if sim.cur != "NULL" else sim.cur
                 sim.request("PLAYING" if out[-1][0] == "start" else "PAUSED")
                 sim.fresh = True
+            elif move == "gapless":
+                # about-to-finish: the next URI is set while playing, its tags arrive, then it starts
+                out.append(("uri", rng.randrange(N_URIS), False, False))
+                for _ in range(rng.randint(0, 2)):
+                    out.append(gen_tag(rng))
+                out.append(("ss",))
             elif move == "bufrun":
                 out += [("buf", p, rng.choice([None, "STREAM"])) for p in rng.choice([[5, 40, 100], [0, 100], [9, 8, 100, 100], [50, 100]])]
             else:
@@ -309,6 +315,16 @@ def monitors(inputs, obs):
                 if p.get("target_state") != exp:
                     fail("reports_sound", {"input": "sc", "clause": "target_state"},
                          f"target_state {p.get('target_state')} but requested {req_before}, reached {new}")
+        # ---- T1 converse (C06_T1_reports_complete): a completed transition is reported unless a
+        #      track change (READY) is the requested state
+        if k == "sc" and inp[1]:
+            new, pend = inp[3], inp[4]
+            if new == "READY" and pend == "NULL":
+                new, pend = "NULL", "VOID_PENDING"
+            if pend == "VOID_PENDING" and new in IMAGE and IMAGE.get(req_before) is not None \
+                    and "state_changed" not in names:
+                fail("reports_complete", {"input": "sc", "clause": "lost"},
+                     f"completed transition {inp!r} not reported while {req_before} requested")
         if names.count("state_changed") > 1:
             fail("reports_sound", {"input": k, "clause": "once"}, "more than one state_changed for one message")
 
@@ -364,10 +380,10 @@ def monitors(inputs, obs):
                 if kk in cur_tags:
                     reported[kk] = cur_tags[kk]
         if cur_tags != reported:
-            fail("tags", {"input": k, "clause": "accumulation"},
+            fail("tags", {"clause": "accumulation"},
                  f"get_current_tags {cur_tags} != accumulation of reports {reported}")
         if k == "tags?" and o["ret"][0] == "tags" and tags_ids(o["ret"][1]) != reported:
-            fail("tags", {"input": k, "clause": "accumulation"}, "get_current_tags() result != accumulation of reports")
+            fail("tags", {"clause": "accumulation"}, "get_current_tags() result != accumulation of reports")
         prev_tags = cur_tags
 
         # ---- T5 buffering never overrides
@@ -388,7 +404,7 @@ def monitors(inputs, obs):
             last_cmd = state_cmds[-1]
         if last_cmd is not None and last_cmd != requested:
             if not (requested == "PLAYING" and last_cmd == "PAUSED" and o["buffering"]):
-                fail("buffering_never_overrides", {"input": k, "clause": "invariant"},
+                fail("buffering_never_overrides", {"clause": "invariant"},
                      f"pipeline last told {last_cmd} but {requested} requested (buffering={o['buffering']})")
         log.extend((e["name"], e["sent"]) for e in evs)
 
@@ -511,7 +527,9 @@ def e_obs(o, prev_tags):
     else:
         raise Unrepresentable(f"exception {r!r}")
     evs = g_list([e_event(e) for e in o["events"] if e["cls"] == "AudioListener"])
-    cmds = g_list([e_cmd(c) for c in o["cmds"]])
+    # compared commands: set_state, the uri property, seeks (other playbin properties such as
+    # "flags" are not something the property speaks about)
+    cmds = g_list([e_cmd(c) for c in o["cmds"] if not (c[1] == "prop" and c[2] != "uri")])
     tags = "None" if o["tags"] == prev_tags else f"(Some {e_dict(o['tags'])})"
     return f"B_ {ret} {evs} {cmds} {e_pstate(o['state'])} {GST[o['target']]} {g_bool(o['buffering'])} {tags}"
 
@@ -525,40 +543,47 @@ def e_case(inputs, obs):
     return f"({g_list([e_input(i) for i in inputs])},\n  {g_list(bs)})"
 
 
-CASES_HEADER = (vlib.COQ_HEADER + "From Common Require Import Res Str Cases.\nFrom Audio Require Import Model Obs.\n")
+CASES_HEADER = (vlib.COQ_HEADER + "From Common Require Import Res Str Cases.\nFrom Audio Require Import Model Obs Monitor.\n")
 
 
 def coq_compare(chk, name, cases):
-    """cases: list of (inputs, obs).  Returns indices that disagree (and records failures)."""
+    """cases: list of (inputs, obs).  Evaluates, inside Coq, for every case the index of the
+    first step on which model and implementation disagree (-1 = none); records failures."""
     shards = [cases[i: i + 250] for i in range(0, len(cases), 250)]
     texts = []
     for shard in shards:
         texts.append(CASES_HEADER + "Definition cases : list (list input * list obs) :=\n "
                      + g_list([e_case(i, o) for i, o in shard]) + ".\n"
-                     + "Eval vm_compute in mismatches case_ok cases.\n")
+                     + "Eval vm_compute in map (fun c => first_bad init (fst c) (snd c) 0) cases.\n"
+                     + "Eval vm_compute in map monitor_code cases.\n")
     results = vlib.coq_eval_many(AREA, texts, jobs=12)
     ok = True
     for shard, (rc, out) in zip(shards, results):
-        bad = vlib.parse_nat_list(out)
-        if rc != 0 or bad is None:
+        lists = vlib.parse_all_lists(out)
+        firsts = lists[0] if lists else None
+        if rc != 0 or len(lists) != 2 or len(firsts) != len(shard) or len(lists[1]) != len(shard):
             ok = False
             chk.corr_failure(name, {"shard": "coq evaluation failed"}, out[-2000:])
             continue
-        for i in bad:
+        # Gallina monitors (Monitor.v: T1, T2, T3, T4 withholding, T5 invariant) on the implementation's trace
+        for (inputs, obs), code in zip(shard, lists[1]):
+            for bit, mon in ((1, "coq:stopped_followed"), (2, "coq:stream_announced_once"), (4, "coq:buffering_invariant"),
+                             (8, "coq:reports_sound"), (16, "coq:tags_withheld")):
+                if code & bit:
+                    sig = (mon, "{}")
+                    if sig in chk.__dict__.setdefault("_c06_seen_fail", set()):
+                        chk.dist("monitor-repeat:" + mon)
+                        continue
+                    chk._c06_seen_fail.add(sig)
+                    chk.monitor_failure(mon, {"evaluated": "Monitor.monitor_code on the implementation trace"},
+                                        f"Gallina monitor {mon} is false on the real execution", {"inputs": inputs})
+        for (inputs, obs), cut in zip(shard, firsts):
+            if cut == -1:
+                continue
             ok = False
-            inputs, obs = shard[i]
-            cut = first_bad(inputs, obs)
             chk.corr_failure(name, {"inputs": inputs[: cut + 1]},
                              {"first_disagreeing_step": cut, "impl_step": slim(obs[cut]) if 0 <= cut < len(obs) else None})
     return ok
-
-
-def first_bad(inputs, obs):
-    text = (CASES_HEADER + f"Definition c := {e_case(inputs, obs)}.\n"
-            + "Eval vm_compute in [first_bad init (fst c) (snd c) 0].\n")
-    rc, out = vlib.coq_eval(AREA, text, name="firstbad")
-    r = vlib.parse_nat_list(out)
-    return r[0] if rc == 0 and r else len(inputs) - 1
 
 
 def slim(o):
@@ -704,7 +729,7 @@ def run(chk):
         return
 
     quick = chk.tier == "quick"
-    n = 1500 if quick else 20000
+    n = 1500 if quick else 60000
     max_len = 60
     gen = []
     for _ in range(n):
